@@ -789,6 +789,104 @@ Qed.
 Lemma slice_incl m lo hi x : In x (slice m lo hi) -> In x m.
 Proof. unfold slice. intros H. apply firstn_In_incl in H. apply skipn_In_incl in H. exact H. Qed.
 
+(* --- inherited MutableSet / Sequence methods --- *)
+Lemma remove_key_length a m : (length (remove_key Z.eqb a m) <= length m)%nat.
+Proof.
+  unfold remove_key. induction m as [|x t IH]; simpl; [lia|].
+  destruct (negb (a =? x)); simpl; lia.
+Qed.
+
+Lemma remove_key_head x r : remove_key Z.eqb x (x :: r) = remove_key Z.eqb x r.
+Proof. unfold remove_key. simpl. rewrite Z.eqb_refl. reflexivity. Qed.
+
+Lemma pop_all_nil_gen fuel : forall m, (length m <= fuel)%nat -> pop_all fuel m = [].
+Proof.
+  induction fuel as [|f IH]; intros m H.
+  - destruct m; [reflexivity|simpl in H; lia].
+  - destruct m as [|x r]; [reflexivity|].
+    change (pop_all (S f) (x :: r)) with (pop_all f (remove_key Z.eqb x (x :: r))). apply IH.
+    rewrite remove_key_head. pose proof (remove_key_length x r) as Hl. simpl length in H.
+    apply le_S_n in H. exact (Nat.le_trans _ _ _ Hl H).
+Qed.
+
+Lemma pop_all_nil m : pop_all (length m) m = [].
+Proof. apply pop_all_nil_gen. lia. Qed.
+
+Lemma remove_key_head_nodup x r : NoDup (x :: r) -> remove_key Z.eqb x (x :: r) = r.
+Proof.
+  intros H. inversion H; subst. rewrite remove_key_head. apply remove_key_absent. assumption.
+Qed.
+
+Lemma index_of_spec a m : forall i,
+  match index_of a m i with
+  | Some j => i <= j < i + zlen m /\ nth (Z.to_nat (j - i)) m 0 = a /\
+              ~ In a (firstn (Z.to_nat (j - i)) m)
+  | None => ~ In a m
+  end.
+Proof.
+  unfold zlen. induction m as [|x t IH]; intros i; simpl index_of; [intros []|].
+  destruct (x =? a) eqn:E.
+  - apply Z.eqb_eq in E. subst. rewrite Z.sub_diag. simpl. split; [lia|]. split; [reflexivity|intros []].
+  - apply Z.eqb_neq in E. specialize (IH (i + 1)). destruct (index_of a t (i + 1)) as [j|].
+    + destruct IH as [Hr [Hn Hf]]. simpl length. split; [lia|].
+      replace (Z.to_nat (j - i)) with (S (Z.to_nat (j - (i + 1)))) by lia.
+      split; [exact Hn|]. simpl. intros [H|H]; [congruence|contradiction].
+    + intros [H|H]; [congruence|contradiction].
+Qed.
+
+Lemma count_of_nodup a m : NoDup m -> count_of a m = if memb Z.eqb a m then 1 else 0.
+Proof.
+  unfold count_of, zlen. induction m as [|x t IH]; intros H; [reflexivity|].
+  inversion H as [|? ? Hx Ht]; subst. simpl. rewrite (Z.eqb_sym a x).
+  destruct (x =? a) eqn:E.
+  - apply Z.eqb_eq in E. subst. simpl.
+    assert (filter (fun y => y =? a) t = []) as ->; [|reflexivity].
+    destruct (filter (fun y => y =? a) t) as [|y r] eqn:Ef; [reflexivity|].
+    assert (In y (filter (fun y => y =? a) t)) as Hy by (rewrite Ef; left; reflexivity).
+    apply filter_In in Hy. destruct Hy as [Hy1 Hy2]. apply Z.eqb_eq in Hy2. subst. contradiction.
+  - simpl. apply IH. exact Ht.
+Qed.
+
+Section MixinLaws.
+  Variables (st : state) (s : Z) (m : list id).
+  Hypothesis Hm : members st s = Some m.
+
+  Lemma pop_spec :
+    (m = [] -> step st (Pop s) = (st, RErr E_KEY)) /\
+    (forall x r, m = x :: r -> NoDup m -> step st (Pop s) = (store st s r, ROk [x])).
+  Proof.
+    unfold members in Hm. split.
+    - intros ->. unfold step. cbv zeta. rewrite Hm. reflexivity.
+    - intros x r -> Hnd. unfold step. cbv zeta. rewrite Hm. cbv beta iota.
+      f_equal. f_equal. apply remove_key_head_nodup. exact Hnd.
+  Qed.
+
+  Lemma clear_spec : step st (Clear s) = (store st s [], ROk []).
+  Proof. unfold members in Hm. unfold step. cbv zeta. rewrite Hm, pop_all_nil. reflexivity. Qed.
+
+  Lemma reversed_spec : step st (Reversed s) = (st, ROk (rev m)).
+  Proof. unfold members in Hm. unfold step. cbv zeta. rewrite Hm. reflexivity. Qed.
+
+  Lemma index_count_spec a ag : assoc a (st_tbl st) = Some ag ->
+    (In a m -> exists j, step st (IndexOf s a) = (st, ROk [j]) /\ 0 <= j < zlen m /\
+                        nth (Z.to_nat j) m 0 = a /\ ~ In a (firstn (Z.to_nat j) m)) /\
+    (~ In a m -> step st (IndexOf s a) = (st, RErr E_VALUE)) /\
+    (NoDup m -> step st (Count s a) = (st, ROk [if memb Z.eqb a m then 1 else 0])).
+  Proof.
+    intros Ha. unfold members in Hm. pose proof (index_of_spec a m 0) as Hi.
+    split; [|split].
+    - intros Hin. unfold step. cbv zeta. rewrite Hm, Ha.
+      destruct (index_of a m 0) as [j|]; [|contradiction].
+      exists j. rewrite Z.sub_0_r in Hi. destruct Hi as [H1 [H2 H3]].
+      split; [reflexivity|]. split; [lia|]. split; assumption.
+    - intros Hnin. unfold step. cbv zeta. rewrite Hm, Ha.
+      destruct (index_of a m 0) as [j|]; [|reflexivity].
+      exfalso. destruct Hi as [H1 [H2 _]]. apply Hnin. rewrite <- H2. apply nth_In.
+      unfold zlen in H1. lia.
+    - intros Hnd. unfold step. cbv zeta. rewrite Hm, Ha, (count_of_nodup _ _ Hnd). reflexivity.
+  Qed.
+End MixinLaws.
+
 (* ------------------------------------------------------------------ 7. histories *)
 Definition wf (st : state) : Prop := forall s m, members st s = Some m -> NoDup m.
 
@@ -801,6 +899,8 @@ Definition target (o : op) : option Z :=
   | Add s _ => Some s
   | Discard s _ => Some s
   | Remove s _ => Some s
+  | Pop s => Some s
+  | Clear s => Some s
   | _ => None
   end.
 
@@ -915,6 +1015,22 @@ Proof.
   - (* Index *)
     destruct (slot_get s (st_pool st)) as [m|]; [|same]. dm; same.
   - destruct (slot_get s (st_pool st)); same.
+  - destruct (slot_get s (st_pool st)); same.
+  - (* Pop *)
+    destruct (slot_get s (st_pool st)) as [[|x r]|] eqn:Em; [same| |same].
+    intros Hsr; eapply ShStore; [reflexivity|exact Hsr| |].
+    + intros Hwf. apply remove_key_NoDup. eapply Hwf. exact Em.
+    + intros y Hy. left. exists s, (x :: r). split; [exact Em|]. apply zremove_key_In in Hy. tauto.
+  - (* Clear *)
+    destruct (slot_get s (st_pool st)) as [m|] eqn:Em; [|same].
+    intros Hsr; eapply ShStore; [reflexivity|exact Hsr| |].
+    + intros _. rewrite pop_all_nil. constructor.
+    + intros y Hy. rewrite pop_all_nil in Hy. destruct Hy.
+  - (* IndexOf *)
+    destruct (slot_get s (st_pool st)) as [m|]; [|same]. destruct (assoc a (st_tbl st)); [|same].
+    destruct (index_of a m 0); same.
+  - (* Count *)
+    destruct (slot_get s (st_pool st)); [|same]. destruct (assoc a (st_tbl st)); same.
   - destruct (slot_get s (st_pool st)); same.
 Qed.
 
@@ -1279,4 +1395,77 @@ Lemma new_set_spec l : NoDup (new_set l) /\ (forall a, In a (new_set l) <-> In a
 Proof.
   unfold new_set. split; [apply dedup_first_NoDup; exact Z.eqb_eq|].
   intros a. apply dedup_first_In. exact Z.eqb_eq.
+Qed.
+
+(* --- sequences of in-place operations = the same sequence of copying operations --- *)
+(* x = s.op1(); x = x.op2(); ...  (copying forms, each result replacing slot d)  against
+   s.op1(inplace=True); s.op2(inplace=True); ...  : the same members at the end, whatever fails
+   on the way; the attributes are not touched by either. *)
+Definition run_inplace (st : state) (s d : Z) (rs : list reorder) : state :=
+  fold_left (fun st r => fst (step st (mk_op s r true d))) rs st.
+Definition run_copy (st : state) (d : Z) (rs : list reorder) : state :=
+  fold_left (fun st r => fst (step st (mk_op d r false d))) rs st.
+
+Lemma step_reorder_skip st s r inplace d :
+  members st s = None -> fst (step st (mk_op s r inplace d)) = st.
+Proof.
+  unfold members. intros Hm. destruct r; unfold mk_op, step; cbv zeta; rewrite Hm; reflexivity.
+Qed.
+
+Lemma reorder_sim st1 st2 s d r :
+  valid_slot d = true -> members st1 s = members st2 d -> st_tbl st1 = st_tbl st2 ->
+  let st1' := fst (step st1 (mk_op s r true d)) in
+  let st2' := fst (step st2 (mk_op d r false d)) in
+  members st1' s = members st2' d /\ st_tbl st1' = st_tbl st2' /\
+  (forall i, i <> s -> members st1' i = members st1 i) /\
+  (forall i, i <> d -> members st2' i = members st2 i).
+Proof.
+  intros Hd Hm Ht st1' st2'. subst st1' st2'.
+  destruct (members st1 s) as [m|] eqn:E1.
+  - symmetry in Hm.
+    rewrite (step_reorder _ _ _ _ _ _ E1 Hd), (step_reorder _ _ _ _ _ _ Hm Hd), Ht.
+    destruct (transform (st_tbl st2) r m); simpl fst.
+    + rewrite !members_store, !Z.eqb_refl. split; [reflexivity|]. split; [exact Ht|].
+      split; intros i Hi; rewrite members_store.
+      * assert (i =? s = false) as E by (apply Z.eqb_neq; exact Hi). rewrite E. reflexivity.
+      * assert (i =? d = false) as E by (apply Z.eqb_neq; exact Hi). rewrite E. reflexivity.
+    + rewrite E1, Hm. repeat split; try reflexivity; exact Ht.
+    + rewrite E1, Hm. repeat split; try reflexivity; exact Ht.
+  - symmetry in Hm. rewrite (step_reorder_skip _ _ _ _ _ E1), (step_reorder_skip _ _ _ _ _ Hm).
+    rewrite E1, Hm. repeat split; try reflexivity; exact Ht.
+Qed.
+
+Lemma inplace_sequence_eq_copy_sequence rs : forall st1 st2 s d,
+  valid_slot d = true -> members st1 s = members st2 d -> st_tbl st1 = st_tbl st2 ->
+  members (run_inplace st1 s d rs) s = members (run_copy st2 d rs) d /\
+  st_tbl (run_inplace st1 s d rs) = st_tbl (run_copy st2 d rs) /\
+  (forall i, i <> s -> members (run_inplace st1 s d rs) i = members st1 i) /\
+  (forall i, i <> d -> members (run_copy st2 d rs) i = members st2 i).
+Proof.
+  induction rs as [|r t IH]; intros st1 st2 s d Hd Hm Ht.
+  - simpl. repeat split; try reflexivity; assumption.
+  - destruct (reorder_sim st1 st2 s d r Hd Hm Ht) as [Hm' [Ht' [Hf1 Hf2]]].
+    unfold run_inplace, run_copy. simpl fold_left.
+    destruct (IH _ _ s d Hd Hm' Ht') as [H1 [H2 [H3 H4]]].
+    split; [exact H1|]. split; [exact H2|]. split.
+    + intros i Hi. unfold run_inplace in H3. rewrite (H3 i Hi). apply Hf1. exact Hi.
+    + intros i Hi. unfold run_copy in H4. rewrite (H4 i Hi). apply Hf2. exact Hi.
+Qed.
+
+Lemma inherited_methods st s m :
+  members st s = Some m ->
+  (m = [] -> step st (Pop s) = (st, RErr E_KEY)) /\
+  (forall x r, m = x :: r -> NoDup m -> step st (Pop s) = (store st s r, ROk [x])) /\
+  step st (Clear s) = (store st s [], ROk []) /\
+  step st (Reversed s) = (st, ROk (rev m)) /\
+  (forall a ag, assoc a (st_tbl st) = Some ag ->
+    (In a m -> exists j, step st (IndexOf s a) = (st, ROk [j]) /\ 0 <= j < zlen m /\
+                        nth (Z.to_nat j) m 0 = a /\ ~ In a (firstn (Z.to_nat j) m)) /\
+    (~ In a m -> step st (IndexOf s a) = (st, RErr E_VALUE)) /\
+    (NoDup m -> step st (Count s a) = (st, ROk [if memb Z.eqb a m then 1 else 0]))).
+Proof.
+  intros Hm. destruct (pop_spec _ _ _ Hm) as [H1 H2].
+  split; [exact H1|]. split; [exact H2|].
+  split; [apply (clear_spec _ _ _ Hm)|]. split; [apply (reversed_spec _ _ _ Hm)|].
+  intros a ag Ha. apply (index_count_spec _ _ _ Hm a ag Ha).
 Qed.
